@@ -264,7 +264,7 @@ def case_pq_pvw(ctx, inp):
         exc = f"{type(e).__name__}: {e}"
     model, stats = ctx.lean(Sym("pq-pvw"), inp["summary"], n, numeric)
     if not vals:
-        ctx.branch("pvw-no-data")
+        ctx.branch("pqpvw-no-data")
         ctx.eq("process_val_weights without data", model, [Sym("empty")])
         if rv is None or np.ndim(rv) != 0:
             ctx.fail("process_val_weights without data does not return a 0-d null array", observed=repr(rv))
@@ -277,29 +277,29 @@ def case_pq_pvw(ctx, inp):
             ctx.disagree("process_val_weights raised, the model did not", model, exc)
         if positive and n >= 1:
             ctx.fail("process_val_weights raised on a positive-weight summary: " + exc, observed=exc)
-        ctx.branch("pvw-raised")
+        ctx.branch("pqpvw-raised")
         return
     rvl = [back(x) for x in rv.tolist()] if not (numeric and k < 0) else [float(x) for x in rv.tolist()]
     if numeric and k < 0:
-        ctx.branch("pvw-undersampled-int-interp(validated only)")
+        ctx.branch("pqpvw-undersampled-int-interp(validated only)")
         ctx.eq("process_val_weights: np.interp branch", model, [Sym("interp")])
         if positive:
             _pvw_oracle(ctx, "process_val_weights (np.interp)", rvl, vals, n, members=False)
         return
     robust = cls != "oversampled" or _float_robust(w2, n)
     nj, ntr, ties = stats
-    ctx.branch("pvw-" + cls + "-" + kind)
+    ctx.branch("pqpvw-" + cls + "-" + kind)
     if cls == "oversampled":
         if nj:
-            ctx.branch("pvw-jumbo")
+            ctx.branch("pqpvw-jumbo")
         if ties > 2:
-            ctx.branch("pvw-interior-target-hits-cumulative-weight")
+            ctx.branch("pqpvw-interior-target-hits-cumulative-weight")
         if nj == n:
-            ctx.branch("pvw-all-partitions-jumbo")
+            ctx.branch("pqpvw-all-partitions-jumbo")
     if robust:
         ctx.eq("process_val_weights", model, [Sym("ok"), rvl])
     else:
-        ctx.branch("pvw-float-divergent(validated only)")
+        ctx.branch("pqpvw-float-divergent(validated only)")
     if positive and n >= 1:
         _pvw_oracle(ctx, "process_val_weights", rvl, vals, n, members=True)
 
